@@ -602,7 +602,20 @@ func freeRound(backend string, s kvs.Storage, seed int64, run *report.Run) []frF
 					}()
 				}
 				c := now()
-				err := s.WaitForVersionChange(ctx, k, ver)
+				var err error
+				if pan := func() (p any) {
+					defer func() { p = recover() }()
+					err = s.WaitForVersionChange(ctx, k, ver)
+					return nil
+				}(); pan != nil {
+					raw := ""
+					if g, ok := s.(interface{ VerifRaw(string) string }); ok {
+						raw = g.VerifRaw(k)
+					}
+					report(frFinding{backend + "/wait/panic", fmt.Sprintf("WaitForVersionChange(%s) panicked: %v (context error at that moment: %v; cancelled by the harness: %v)%s", k, pan, ctx.Err(), cancelAt.Load() != 0, raw), frWitness{Backend: backend, Seed: seed}})
+					cancel()
+					return
+				}
 				ret := now()
 				e := hist.Classify(err)
 				if ret-c > int64(50*time.Microsecond) {
